@@ -62,6 +62,13 @@ def observe(text, params=None):
             ser = []
             for node in rd.iter_segments(L):
                 ser.append([node.type] + [d['segment'].format() + '|%s|%s' % (d['seg_count'], d['cur_line_number']) for d in node.iterate_segments()])
+                # what an application working on the trees sees and does: the loop open/close events around the segments, and a private copy of
+                # the node (kept, changed, written elsewhere) which must describe the same thing as the node it was taken from
+                ev = lambda nd: [[d['type'], d['id']] if d['type'] != 'seg' else ['seg', d['segment'].format()] for d in nd.iterate_loop_segments()]
+                ser.append(['events'] + ev(node))
+                dup = node.copy()
+                if ev(dup) != ser[-1][1:]:
+                    ser.append(['copy-differs'] + ev(dup))
             out['context:%s' % L] = ser
         except Exception as ex:
             from vlib.worker import exc_key
